@@ -145,7 +145,9 @@ struct CStmt {
     sql: String,
 }
 impl CStmt {
-    fn new(op: Op, c: i64, kind: Kind) -> CStmt {
+    /// `strict` (pass `full`): the UPDATE of the TOAST schema also rewrites the 1.5 KB column (KF-C05-08 keeps
+    /// that out of the other passes, where it only sets a)
+    fn new(op: Op, c: i64, kind: Kind, strict: bool) -> CStmt {
         let row = |k: u8, c: i64| -> Row {
             let mut r = vec![V::Int(k as i64), V::Int(c)];
             if kind == Kind::Toast {
@@ -164,7 +166,7 @@ impl CStmt {
             }
             OpK::Upd(k) => {
                 let mut set = vec![("a", int(c))];
-                if kind == Kind::Toast {
+                if kind == Kind::Toast && strict {
                     set.push(("b", refmodel::sql::expr::lit(V::Text(big(c)))));
                 }
                 let u = Update::new("t", set, Some(eq(col("id"), int(k as i64))));
@@ -188,13 +190,13 @@ impl CStmt {
         CStmt { op, c, stmt, sql }
     }
     /// the value counter of the statement at position `step` of a history
-    fn at(op: Op, step: usize, kind: Kind) -> CStmt {
-        CStmt::new(op, 100 * (step as i64 + 1), kind)
+    fn at(op: Op, step: usize, kind: Kind, strict: bool) -> CStmt {
+        CStmt::new(op, 100 * (step as i64 + 1), kind, strict)
     }
     fn to_json(&self) -> Value {
         json!({"op": self.op.kind_name(), "keys": self.op.keys(), "ret": self.op.ret, "c": self.c})
     }
-    fn from_json(v: &Value, kind: Kind) -> Option<CStmt> {
+    fn from_json(v: &Value, kind: Kind, strict: bool) -> Option<CStmt> {
         let keys: Vec<u8> = v["keys"].as_array()?.iter().filter_map(|x| x.as_u64().map(|k| k as u8)).collect();
         let k = match (v["op"].as_str()?, keys.as_slice()) {
             ("INS", [k]) => OpK::Ins(*k),
@@ -206,11 +208,11 @@ impl CStmt {
             ("TRUNC", []) => OpK::Trunc,
             _ => return None,
         };
-        Some(CStmt::new(Op { k, ret: v["ret"].as_bool()? }, v["c"].as_i64()?, kind))
+        Some(CStmt::new(Op { k, ret: v["ret"].as_bool()? }, v["c"].as_i64()?, kind, strict))
     }
 }
-fn history_json(kind: Kind, h: &[CStmt]) -> Value {
-    json!({"kind": kind.name(), "history": h.iter().map(|c| c.to_json()).collect::<Vec<_>>(), "sql": h.iter().map(|c| vcore::util::clip(&c.sql, 120)).collect::<Vec<_>>()})
+fn history_json(kind: Kind, pass: &str, h: &[CStmt]) -> Value {
+    json!({"kind": kind.name(), "pass": pass, "history": h.iter().map(|c| c.to_json()).collect::<Vec<_>>(), "sql": h.iter().map(|c| vcore::util::clip(&c.sql, 120)).collect::<Vec<_>>()})
 }
 
 /// canonical operation pattern: keys renamed k, j, m in order of first appearance, values dropped
@@ -287,10 +289,12 @@ struct Track {
     st: State,
     /// every value column a ever held (probed through the secondary index)
     seen_a: BTreeSet<i64>,
-    /// keys that carry a tombstone (deleted by DELETE since the last TRUNCATE / re-insert)
+    /// keys that carry a tombstone (deleted by DELETE since the last TRUNCATE; a re-insert gets a new row id)
     tomb: BTreeSet<u8>,
     /// some row was tombstoned since the table was created / truncated
     any_tomb: bool,
+    /// soft oracles that already failed on this history (reported once, then switched off for its extensions)
+    off: BTreeSet<&'static str>,
 }
 impl Track {
     fn new(kind: Kind) -> Track {
@@ -298,7 +302,7 @@ impl Track {
         for s in kind.ddl() {
             s.apply(&mut st).expect("model DDL");
         }
-        Track { st, seen_a: BTreeSet::new(), tomb: BTreeSet::new(), any_tomb: false }
+        Track { st, seen_a: BTreeSet::new(), tomb: BTreeSet::new(), any_tomb: false, off: BTreeSet::new() }
     }
     fn live_keys(&self) -> Vec<u8> {
         let mut v: Vec<u8> = self.st.rows("t").iter().filter_map(|r| if let V::Int(i) = r[0] { Some(i as u8) } else { None }).collect();
@@ -360,7 +364,7 @@ fn rows_cls(exp: &[Row], obs: &[Row]) -> &'static str {
 
 /// Execute one statement on the database and on the model, observe, compare.  Returns every
 /// failing oracle (empty = agreement).
-fn step(t: &TestDb, tr: &mut Track, cs: &CStmt, kind: Kind, plant: Plant, mut rep: Option<&mut Reporter>) -> Vec<Fail> {
+fn step(t: &TestDb, tr: &mut Track, cs: &CStmt, kind: Kind, strict: bool, plant: Plant, mut rep: Option<&mut Reporter>) -> Vec<Fail> {
     let mut fails = vec![];
     tr.before(cs.op);
     let exp = cs.stmt.apply(&mut tr.st);
@@ -396,7 +400,11 @@ fn step(t: &TestDb, tr: &mut Track, cs: &CStmt, kind: Kind, plant: Plant, mut re
         }
         if kind == Kind::Toast && got.ok() {
             if let (OpK::Ins(_) | OpK::Ins2(..) | OpK::Upd(_), Ok(Outcome::Affected { count, .. })) = (cs.op.k, &exp) {
-                r.count("toast_rows_written", *count as u64);
+                if matches!(cs.op.k, OpK::Upd(_)) && !strict {
+                    r.count("toast_rows_rewritten_keeping_pointer", *count as u64);
+                } else {
+                    r.count("toast_rows_written", *count as u64);
+                }
             }
         }
     }
@@ -408,7 +416,9 @@ fn step(t: &TestDb, tr: &mut Track, cs: &CStmt, kind: Kind, plant: Plant, mut re
             }
             match (returning, ret) {
                 (Some(e), Some(o)) => {
-                    let (eb, ob) = (bag(e), bag(o));
+                    // tolerance of the non-strict passes (KF-C05-06): the TOAST column of RETURNING rows is not compared
+                    let cut = |rows: &[Row]| -> Vec<Row> { if !strict && kind == Kind::Toast { rows.iter().map(|r| r.iter().take(2).cloned().collect()).collect() } else { rows.to_vec() } };
+                    let (eb, ob) = (bag(&cut(e)), bag(&cut(o)));
                     if eb != ob {
                         fails.push(fail("returning", rows_cls(&eb, &ob), format!("RETURNING {}", show_rows(&eb)), format!("RETURNING {}", show_rows(&ob))));
                     }
@@ -475,7 +485,7 @@ fn step(t: &TestDb, tr: &mut Track, cs: &CStmt, kind: Kind, plant: Plant, mut re
         if let Some(r) = rep.as_deref_mut() {
             r.count(if kind.has_pk() { "pk_point_lookups" } else { "id_filter_scans" }, lookups);
         }
-        if kind == Kind::PkIdx {
+        if kind == Kind::PkIdx && strict && !tr.off.contains("idx-lookup") {
             let mut n = 0u64;
             for v in tr.seen_a.clone() {
                 let want: Vec<Row> = obs.iter().filter(|r| r[1] == V::Int(v)).cloned().collect();
@@ -500,32 +510,52 @@ fn step(t: &TestDb, tr: &mut Track, cs: &CStmt, kind: Kind, plant: Plant, mut re
             }
         }
     }
+    fails.retain(|f| !tr.off.contains(f.oracle));
     fails
 }
 
-/// Run a whole history on a fresh database with the oracle after every statement; the first
-/// divergent step and its failing oracles.
-fn first_fail(base: &Path, kind: Kind, h: &[CStmt], plant: Plant) -> Option<(usize, Vec<Fail>)> {
-    let t = fresh_db(base, "shrink", kind);
-    let mut tr = Track::new(kind);
-    for (i, cs) in h.iter().enumerate() {
-        let f = step(&t, &mut tr, cs, kind, plant, None);
-        if !f.is_empty() {
-            return Some((i, f));
+/// Observation-only oracles: a mismatch says nothing about the table state (which `rows` checks
+/// against the model at the same step), so the history is NOT cut there; the oracle is reported once
+/// and switched off for the extensions of that history.
+const SOFT: [&str; 2] = ["returning", "idx-lookup"];
+/// record soft failures in the track; true = the step is a real divergence (cut the history here)
+fn settle(tr: &mut Track, fails: &[Fail]) -> bool {
+    let mut fatal = false;
+    for f in fails {
+        if SOFT.contains(&f.oracle) {
+            tr.off.insert(f.oracle);
+        } else {
+            fatal = true;
         }
     }
-    None
+    fatal
+}
+
+/// Run a whole history on a fresh database with the oracle after every statement: every step with a
+/// failing oracle, up to and including the first real divergence.
+fn run_all(base: &Path, kind: Kind, h: &[CStmt], strict: bool, plant: Plant) -> Vec<(usize, Vec<Fail>)> {
+    let t = fresh_db(base, "shrink", kind);
+    let mut tr = Track::new(kind);
+    let mut out = vec![];
+    for (i, cs) in h.iter().enumerate() {
+        let f = step(&t, &mut tr, cs, kind, strict, plant, None);
+        if !f.is_empty() {
+            let fatal = settle(&mut tr, &f);
+            out.push((i, f));
+            if fatal {
+                break;
+            }
+        }
+    }
+    out
 }
 
 /// Shrink a failing history while oracle `oracle` still fails with class `cls`.
-fn shrink(base: &Path, kind: Kind, h: &[CStmt], oracle: &str, cls: &str, plant: Plant, runs: &mut u64) -> Vec<CStmt> {
+fn shrink(base: &Path, kind: Kind, h: &[CStmt], oracle: &str, cls: &str, strict: bool, plant: Plant, runs: &mut u64) -> Vec<CStmt> {
     let mut cur: Vec<CStmt> = h.to_vec();
     let still = |cand: &[CStmt], runs: &mut u64| -> Option<usize> {
         *runs += 1;
-        match first_fail(base, kind, cand, plant) {
-            Some((i, fs)) if fs.iter().any(|f| f.oracle == oracle && f.cls == cls) => Some(i),
-            _ => None,
-        }
+        run_all(base, kind, cand, strict, plant).into_iter().find(|(_, fs)| fs.iter().any(|f| f.oracle == oracle && f.cls == cls)).map(|(i, _)| i)
     };
     loop {
         let mut changed = false;
@@ -554,9 +584,19 @@ fn shrink(base: &Path, kind: Kind, h: &[CStmt], oracle: &str, cls: &str, plant: 
                 alts.push(Op { k: OpK::Ins(a), ret: cur[i].op.ret });
                 alts.push(Op { k: OpK::Ins(b), ret: cur[i].op.ret });
             }
+            // set-up statements (not the failing one): prefer the keyed single-row form
+            if i + 1 < cur.len() {
+                for k in 1..=3u8 {
+                    match cur[i].op.k {
+                        OpK::DelAll => alts.push(Op { k: OpK::Del(k), ret: cur[i].op.ret }),
+                        OpK::UpdAll => alts.push(Op { k: OpK::Upd(k), ret: cur[i].op.ret }),
+                        _ => {}
+                    }
+                }
+            }
             for alt in alts {
                 let mut cand = cur.clone();
-                cand[i] = CStmt::new(alt, cur[i].c, kind);
+                cand[i] = CStmt::new(alt, cur[i].c, kind, strict);
                 if let Some(at) = still(&cand, runs) {
                     cand.truncate(at + 1);
                     cur = cand;
@@ -583,54 +623,102 @@ fn signature(kind: Kind, oracle: &str, minimal: &[CStmt], cls: &str) -> String {
 // ---------------------------------------------------------------------------
 #[derive(Clone, Copy, PartialEq, Eq, Debug)]
 enum Rule {
-    /// every operation in every state
+    /// every operation in every state, every oracle strict
     Full,
-    /// constructs of findings.d/C05.json excluded (state-aware)
+    /// the constructs listed in findings.d/C05.json are excluded (state-aware alphabet, two tolerances)
     Live,
-    /// no DELETE statements at all
-    NoDelete,
+}
+#[derive(Clone, Copy, PartialEq, Eq, Debug)]
+enum Family {
+    /// plain and RETURNING forms mixed (25 operations)
+    Mixed,
+    /// no RETURNING anywhere (13 operations)
+    Plain,
+    /// every INSERT/UPDATE/DELETE carries RETURNING * (12 operations + TRUNCATE)
+    Ret,
 }
 struct Pass {
     name: &'static str,
     rule: Rule,
+    family: Family,
     depth_q: usize,
     depth_t: usize,
+    /// kinds explored one statement deeper in the thorough tier
+    deeper_t: &'static [Kind],
 }
-const PASSES: [Pass; 3] = [
-    Pass { name: "full", rule: Rule::Full, depth_q: 3, depth_t: 4 },
-    Pass { name: "live", rule: Rule::Live, depth_q: 4, depth_t: 6 },
-    Pass { name: "nodel", rule: Rule::NoDelete, depth_q: 4, depth_t: 6 },
+const PASSES: [Pass; 4] = [
+    Pass { name: "full", rule: Rule::Full, family: Family::Mixed, depth_q: 3, depth_t: 4, deeper_t: &[] },
+    Pass { name: "live-plain", rule: Rule::Live, family: Family::Plain, depth_q: 4, depth_t: 6, deeper_t: &[] },
+    Pass { name: "live-ret", rule: Rule::Live, family: Family::Ret, depth_q: 4, depth_t: 6, deeper_t: &[] },
+    Pass { name: "live-mixed", rule: Rule::Live, family: Family::Mixed, depth_q: 4, depth_t: 5, deeper_t: &[] },
 ];
+fn pass_by_name(n: &str) -> &'static Pass {
+    PASSES.iter().find(|p| p.name == n).unwrap_or(&PASSES[0])
+}
+impl Pass {
+    fn strict(&self) -> bool {
+        self.rule == Rule::Full
+    }
+    fn ops(&self) -> Vec<Op> {
+        all_ops()
+            .into_iter()
+            .filter(|op| match self.family {
+                Family::Mixed => true,
+                Family::Plain => !op.ret,
+                Family::Ret => op.ret || op.k == OpK::Trunc,
+            })
+            .collect()
+    }
+}
 
-/// operations of the pass alphabet enabled in the (model) state `tr`
-fn enabled(rule: Rule, kind: Kind, tr: &Track) -> Vec<Op> {
-    let _ = kind;
+/// operations of the pass alphabet enabled in the (model) state `tr`.
+///
+/// Rule::Live leaves out exactly the constructs of the open findings (see findings.d/C05.json):
+///  * a statement whose WHERE clause (or absence of one) covers a tombstoned row: UPDATE/DELETE
+///    without WHERE and TRUNCATE once any row was deleted; `WHERE id = k` when k carries a
+///    tombstone and (PK kinds) k is not live (a live k is found through the PK index, which
+///    holds only the live row) or (no PK) k was ever deleted;
+///  * `WHERE id = k` for a key that never existed (0-row statements; covered by pass `full`, left
+///    out here only to spend the depth on state-changing statements);
+///  * the two-row INSERT when its first row would succeed and its second row collides;
+///  * `UPDATE .. WHERE id = k RETURNING *` through the one-pass PK path (kinds pk, pkidx).
+fn enabled(pass: &Pass, kind: Kind, tr: &Track) -> Vec<Op> {
     let live = tr.live_keys();
-    all_ops()
+    pass.ops()
         .into_iter()
-        .filter(|op| match rule {
+        .filter(|op| match pass.rule {
             Rule::Full => true,
-            Rule::NoDelete => !matches!(op.k, OpK::Del(_) | OpK::DelAll),
             Rule::Live => match op.k {
-                OpK::Del(k) | OpK::Upd(k) => live.contains(&k) && !tr.tomb.contains(&k),
+                OpK::Del(k) | OpK::Upd(k) => {
+                    if matches!(op.k, OpK::Upd(_)) && op.ret && matches!(kind, Kind::Pk | Kind::PkIdx) {
+                        return false;
+                    }
+                    if kind.has_pk() {
+                        live.contains(&k)
+                    } else {
+                        live.contains(&k) && !tr.tomb.contains(&k)
+                    }
+                }
                 OpK::UpdAll | OpK::DelAll | OpK::Trunc => !tr.any_tomb,
-                OpK::Ins(_) | OpK::Ins2(..) => true,
+                OpK::Ins(_) => true,
+                OpK::Ins2(a, b) => !(kind.has_pk() && !live.contains(&a) && live.contains(&b)),
             },
         })
         .collect()
 }
 
+type AbsKey = (Vec<u8>, Vec<u8>, bool);
 /// abstract state that determines the enabled sets of all extensions (for counting)
-fn abs_key(tr: &Track) -> (Vec<u8>, Vec<u8>, bool) {
+fn abs_key(tr: &Track) -> AbsKey {
     (tr.live_keys(), tr.tomb.iter().copied().collect(), tr.any_tomb)
 }
 /// number of histories of the pass that properly extend the prefix in state `tr` by 1..=rem statements
-fn count_ext(rule: Rule, kind: Kind, tr: &Track, step: usize, rem: usize, memo: &mut HashMap<((Vec<u8>, Vec<u8>, bool), usize), u64>) -> u64 {
+fn count_ext(pass: &Pass, kind: Kind, tr: &Track, step: usize, rem: usize, memo: &mut HashMap<(AbsKey, usize), u64>) -> u64 {
     if rem == 0 {
         return 0;
     }
-    if rule == Rule::Full {
-        let b = all_ops().len() as u64;
+    if pass.rule == Rule::Full {
+        let b = pass.ops().len() as u64;
         return (1..=rem as u32).map(|i| b.pow(i)).sum();
     }
     let key = (abs_key(tr), rem);
@@ -638,12 +726,12 @@ fn count_ext(rule: Rule, kind: Kind, tr: &Track, step: usize, rem: usize, memo: 
         return *n;
     }
     let mut n = 0;
-    for op in enabled(rule, kind, tr) {
-        let cs = CStmt::at(op, step, kind);
+    for op in enabled(pass, kind, tr) {
+        let cs = CStmt::at(op, step, kind, pass.strict());
         let mut t2 = tr.clone();
         t2.before(op);
         let _ = cs.stmt.apply(&mut t2.st);
-        n += 1 + count_ext(rule, kind, &t2, step + 1, rem - 1, memo);
+        n += 1 + count_ext(pass, kind, &t2, step + 1, rem - 1, memo);
     }
     memo.insert(key, n);
     n
@@ -658,7 +746,7 @@ struct Explorer<'a> {
     db_seq: u64,
     /// (kind, oracle, cls, pattern of the unshrunk divergent history) -> (signature, minimal case)
     shrink_memo: BTreeMap<(Kind, String, String, String), (String, Value)>,
-    ext_memo: HashMap<((Vec<u8>, Vec<u8>, bool), usize), u64>,
+    ext_memo: HashMap<(AbsKey, usize), u64>,
     capped: bool,
     since_check: u32,
     index_plan: BTreeMap<Kind, bool>,
@@ -716,7 +804,7 @@ impl<'a> Explorer<'a> {
         }
         let t = self.fresh(kind);
         for (i, op) in [OpK::Ins(1), OpK::Ins(2), OpK::Ins(3)].into_iter().enumerate() {
-            let _ = t.exec(&CStmt::at(Op { k: op, ret: false }, i, kind).sql);
+            let _ = t.exec(&CStmt::at(Op { k: op, ret: false }, i, kind, true).sql);
         }
         let p = explain(t.db(), "SELECT * FROM t WHERE id = 2").unwrap_or_default();
         let via_index = p.contains("IndexScan");
@@ -751,11 +839,11 @@ impl<'a> Explorer<'a> {
                 }
                 None => {
                     let mut runs = 0;
-                    let min = shrink(&self.ctx.scratch, kind, h, f.oracle, &f.cls, self.plant, &mut runs);
+                    let min = shrink(&self.ctx.scratch, kind, h, f.oracle, &f.cls, pass.strict(), self.plant, &mut runs);
                     rep.count("shrink_runs", runs);
                     let sig = signature(kind, f.oracle, &min, &f.cls);
-                    let mut case = history_json(kind, &min);
-                    case["found_in"] = json!({"pass": pass.name, "pattern": pattern(h)});
+                    let mut case = history_json(kind, pass.name, &min);
+                    case["found_in"] = json!({"pattern": pattern(h)});
                     self.shrink_memo.insert(key, (sig.clone(), case.clone()));
                     (sig, case)
                 }
@@ -780,7 +868,7 @@ impl<'a> Explorer<'a> {
     #[allow(clippy::too_many_arguments)]
     fn dfs(&mut self, rep: &mut Reporter, pass: &Pass, kind: Kind, h: &mut Vec<CStmt>, tr: &Track, db: TestDb, depth: usize) {
         let mut db = Some(db);
-        for op in enabled(pass.rule, kind, tr) {
+        for op in enabled(pass, kind, tr) {
             if self.check_deadline(rep, &format!("pass {} kind {}", pass.name, kind.name())) {
                 return;
             }
@@ -788,12 +876,17 @@ impl<'a> Explorer<'a> {
                 Some(t) => t,
                 None => self.rebuild(kind, h, rep),
             };
-            let cs = CStmt::at(op, h.len(), kind);
+            let cs = CStmt::at(op, h.len(), kind, pass.strict());
             let mut tr2 = tr.clone();
-            let fails = step(&t, &mut tr2, &cs, kind, self.plant, Some(rep));
+            let fails = step(&t, &mut tr2, &cs, kind, pass.strict(), self.plant, Some(rep));
             h.push(cs);
             self.account(rep, kind, h, tr, &tr2);
-            if fails.is_empty() {
+            let fatal = settle(&mut tr2, &fails);
+            if !fails.is_empty() {
+                let hv = h.clone();
+                self.report(rep, pass, kind, &hv, &fails);
+            }
+            if !fatal {
                 if h.len() < depth {
                     self.dfs(rep, pass, kind, h, &tr2, t, depth);
                 } else {
@@ -801,9 +894,7 @@ impl<'a> Explorer<'a> {
                 }
             } else {
                 drop(t);
-                let hv = h.clone();
-                self.report(rep, pass, kind, &hv, &fails);
-                let n = count_ext(pass.rule, kind, &tr2, h.len(), depth - h.len(), &mut self.ext_memo);
+                let n = count_ext(pass, kind, &tr2, h.len(), depth - h.len(), &mut self.ext_memo);
                 rep.pruned(n);
                 rep.count(&format!("pruned:{}", pass.name), n);
             }
@@ -827,18 +918,20 @@ impl<'a> Explorer<'a> {
         let mut h: Vec<CStmt> = vec![];
         for (i, op) in ops.iter().enumerate() {
             let last = i + 1 == ops.len();
-            let cs = CStmt::at(*op, i, kind);
+            let cs = CStmt::at(*op, i, kind, pass.strict());
             let before = tr.clone();
-            let fails = step(&t, &mut tr, &cs, kind, self.plant, if last { Some(rep) } else { None });
+            let fails = step(&t, &mut tr, &cs, kind, pass.strict(), self.plant, if last { Some(rep) } else { None });
             h.push(cs);
             if last {
                 self.account(rep, kind, &h, &before, &tr);
             }
-            if !fails.is_empty() {
+            let fatal = settle(&mut tr, &fails);
+            if last && !fails.is_empty() {
+                self.report(rep, pass, kind, &h, &fails);
+            }
+            if fatal {
                 if last {
-                    drop(t);
-                    self.report(rep, pass, kind, &h, &fails);
-                    let n = count_ext(pass.rule, kind, &tr, h.len(), depth - h.len(), &mut self.ext_memo);
+                    let n = count_ext(pass, kind, &tr, h.len(), depth - h.len(), &mut self.ext_memo);
                     rep.pruned(n);
                     rep.count(&format!("pruned:{}", pass.name), n);
                 }
@@ -858,13 +951,16 @@ impl<'a> Explorer<'a> {
             if only_pass.as_deref().map(|p| p != pass.name).unwrap_or(false) {
                 continue;
             }
-            let depth = self.ctx.opt("depth").and_then(|d| d.parse().ok()).unwrap_or(self.ctx.tier.pick(pass.depth_q, pass.depth_t));
-            let split = self.ctx.tier.pick(2usize, 3usize).min(depth);
-            rep.bound(&format!("depth:{}", pass.name), json!(depth));
             for kind in KINDS {
                 if only_kind.map(|k| k != kind).unwrap_or(false) {
                     continue;
                 }
+                let deeper = !self.ctx.quick() && pass.deeper_t.contains(&kind);
+                let depth = self.ctx.opt("depth").and_then(|d| d.parse().ok()).unwrap_or(self.ctx.tier.pick(pass.depth_q, pass.depth_t) + deeper as usize);
+                let split = self.ctx.tier.pick(2usize, 3usize).min(depth);
+                rep.bound(&format!("depth:{}:{}", pass.name, kind.name()), json!(depth));
+                let total = count_ext(pass, kind, &Track::new(kind), 0, depth, &mut HashMap::new());
+                rep.bound(&format!("histories:{}:{}", pass.name, kind.name()), json!(total));
                 self.plans(kind, rep);
                 self.ext_memo.clear();
                 // breadth-first over the model: histories of length 1..=split
@@ -872,12 +968,12 @@ impl<'a> Explorer<'a> {
                 for len in 1..=split {
                     let mut next = vec![];
                     for (ops, tr) in &level {
-                        for op in enabled(pass.rule, kind, tr) {
+                        for op in enabled(pass, kind, tr) {
                             let mut o2 = ops.clone();
                             o2.push(op);
                             let mut t2 = tr.clone();
                             t2.before(op);
-                            let _ = CStmt::at(op, ops.len(), kind).stmt.apply(&mut t2.st);
+                            let _ = CStmt::at(op, ops.len(), kind, pass.strict()).stmt.apply(&mut t2.st);
                             next.push((o2, t2));
                         }
                     }
@@ -929,20 +1025,22 @@ impl Check for C05 {
             rep.note("replay: unknown kind");
             return;
         };
-        let h: Vec<CStmt> = case["history"].as_array().map(|a| a.iter().filter_map(|x| CStmt::from_json(x, kind)).collect()).unwrap_or_default();
+        let pass = pass_by_name(case["pass"].as_str().unwrap_or("full"));
+        let strict = pass.strict();
+        let h: Vec<CStmt> = case["history"].as_array().map(|a| a.iter().filter_map(|x| CStmt::from_json(x, kind, strict)).collect()).unwrap_or_default();
         let plant = Plant::from_ctx(ctx);
         let ops: Vec<Op> = h.iter().map(|c| c.op).collect();
         rep.case(vcore::util::hash_of(&(kind, &ops)), true);
         rep.add_states(1);
         rep.add_transitions(h.len() as u64);
         rep.add_traces_validated(1);
-        if let Some((at, fails)) = first_fail(&ctx.scratch, kind, &h, plant) {
+        for (at, fails) in run_all(&ctx.scratch, kind, &h, strict, plant) {
             let hv = &h[..=at];
             for f in &fails {
                 let mut runs = 0;
-                let min = shrink(&ctx.scratch, kind, hv, f.oracle, &f.cls, plant, &mut runs);
+                let min = shrink(&ctx.scratch, kind, hv, f.oracle, &f.cls, strict, plant, &mut runs);
                 let sig = signature(kind, f.oracle, &min, &f.cls);
-                rep.violation("C05", f.oracle, &sig, || history_json(kind, &min), &f.expected, &f.observed);
+                rep.violation("C05", f.oracle, &sig, || history_json(kind, pass.name, &min), &f.expected, &f.observed);
             }
         }
     }
@@ -1002,6 +1100,15 @@ fn bench() {
 fn main() {
     if std::env::var("C05_BENCH").is_ok() {
         bench();
+        return;
+    }
+    if std::env::var("C05_COUNT").is_ok() {
+        for pass in PASSES.iter() {
+            for kind in KINDS {
+                let v: Vec<u64> = (1..=6).map(|d| count_ext(pass, kind, &Track::new(kind), 0, d, &mut HashMap::new())).collect();
+                println!("{:11} {:6} histories up to depth 1..6: {:?}", pass.name, kind.name(), v);
+            }
+        }
         return;
     }
     vcore::main(&C05)
